@@ -347,6 +347,8 @@ class C02(core.PropertyCheck):
         return {"kind": "walk", "pages": [[tree(0) for _ in range(rng.randint(0, 3))] for _ in range(rng.randint(1, 3))]}
 
     def shrink_candidates(self, case):
+        if case["kind"] == "disk":
+            return
         if case["kind"] == "scan":
             for i in range(len(case["stack"])):
                 yield {**case, "stack": case["stack"][:i] + case["stack"][i + 1:]}
@@ -553,6 +555,31 @@ class C02(core.PropertyCheck):
 
     def finding_key(self, case, impl, desc):
         return desc
+
+    # ---- whole projects on disk through Project.build() ---------------------------------------------------------------
+    def extra_checks(self, tier, rng):
+        import logging
+        from impl import c02disk, c04gen
+        logging.disable(logging.CRITICAL)
+        n = 30 if tier == "quick" else 300
+        viol, seen, tags, built = [], set(), {}, 0
+        for _ in range(n):
+            case = c04gen.gen_project_case(rng)
+            files = dict(case["files"])
+            info = c02disk.add_disk_features(rng, files)
+            for t in info["tags"]:
+                tags[t] = tags.get(t, 0) + 1
+            res = c02disk.build(files)
+            built += 1
+            if res["exc"]:
+                key = f"build-raised:{res['exc']}@{res['where']}"
+                if key not in seen:
+                    seen.add(key)
+                    viol.append({"case": {"kind": "disk", "files": {k: (v if isinstance(v, str) else {"hex": v.hex()}) for k, v in files.items()}, "features": info["tags"]},
+                                 "desc": f"Project.build() of a project on disk raised {res['exc']} at {res['where']}: {res['msg']} (features {info['tags']})",
+                                 "key": key})
+        return viol, {"disk_projects": {"built": built, "features": tags,
+                                        "what": "generated projects + facets.toml (well-formed / malformed, two levels) + nested project + odd files, built with the real Project.build(); any exception is a violation"}}
 
     def nontrivial_key(self, case, impl):
         if case["kind"] == "walk":
